@@ -17,7 +17,7 @@ from __future__ import annotations
 
 import time
 
-from .. import core, vt
+from .. import core, group_ilv, vt
 from .. import c1819_lib as L
 
 PROPERTY = "C19"
@@ -26,7 +26,8 @@ META = {
     "engine": "vtx",
     "technique": "bounded-exhaustive enumeration of (grouping instance, timeline) on virtual time; every emitted group is subscribed in "
     "its emission step; observation judged by membership in the set produced by a nondeterministic reference simulator "
-    "(all orders of an element and a group expiry in the same instant); partition judged by the predicate's split",
+    "(all orders of an element and a group expiry in the same instant); partition judged by the predicate's split; plus stateless exhaustive exploration of thread interleavings (bounded preemptions) of "
+    "group_by_until with the durations firing on another thread than the source",
     "text": "group_by and group_by_until (1, 2, N keys incl. falsy keys; element mappers; durations never/15/20/25/per-key, closing by "
     "element, by completion and by reactivex.timer on the virtual scheduler) and partition/partition_indexed (all catalogue "
     "predicates, both/first-only/second-only subscribed) are executed on every timeline of the tier; each group's key, open "
@@ -359,11 +360,14 @@ def run(ctx: core.Ctx):
         "harness cold sources are conforming; every group is subscribed in its emission step",
         "R3: an element arriving in the instant its group's duration fires may be delivered before or after the expiry",
     ]
+    group_ilv.run_part(ctx)  # E3: durations firing on another thread than the source
     part = ctx.sharded(shard)
     ctx.cov["operators_covered"] = sorted(k[3:] for k in part.counters if k.startswith("op:"))
 
 
 def replay(case):
+    if isinstance(case, dict) and str(case.get("harness", "")).startswith("group-threads|"):
+        return group_ilv.replay(case)
     inst = case["instance"]
     tl = [tuple(x) for x in case["timeline"]]
     alpha = tuple(case["alphabet"])
